@@ -180,7 +180,7 @@ pub fn run_c06p() {
                             if pa.clone() * big(b.supply) < pb.clone() * big(a.supply) {
                                 // the pnl cap may start to bind less tightly only by rounding: allow the documented slack
                                 let slack = (big(a.pools[0].0) * big(p.lmax) + big(a.pools[0].1) * big(p.smax)) / big(1_000_000_000) + BigInt::from(2);
-                                if !is_fresh && has_oi { out.stat("deposit.dilution_stale_borrowing_clock(not reachable on chain: pre_execute)"); }
+                                if !is_fresh && has_oi { out.stat("deposit.dilution_stale_borrowing_clock"); }
                                 else if (pa + slack) * big(b.supply) < pb * big(a.supply) { out.oracle_fail("deposit lowered the value of one market token for the existing holders (implementation's pool value)", &req); }
                                 else { out.stat("deposit.dilution_within_rounding"); }
                             }
